@@ -347,7 +347,10 @@ func runC11(c *fw.Ctx) {
 				c.Count("expanded_identifiers", int64(m))
 				// a second pass: the restored ast is decorated again (fresh decorator on the restorer's
 				// file set) and restored again; the laws hold for both new pairs of maps
-				if cfg == "plain" || cfg == "goast+imports" {
+				// (in the thorough tier, which takes every corpus file, the second pass and the printing
+				// entry points run for every fourth corpus file and for every snippet)
+				extra := c.Quick() || i%4 == 0 || strings.HasPrefix(p, "snippet:")
+				if extra && (cfg == "plain" || cfg == "goast+imports") {
 					var d2 *decorator.Decorator
 					if withImports {
 						d2 = decorator.NewDecoratorWithImports(r.Fset, "example.com/self", goast.New())
@@ -378,6 +381,9 @@ func runC11(c *fw.Ctx) {
 				// the same through the printing entry points (Fprint restores, then prints): the maps
 				// they leave behind describe the ast they created
 				for _, via := range []string{"Restorer.Fprint", "FileRestorer.Fprint"} {
+					if !extra {
+						break
+					}
 					var r2 *decorator.Restorer
 					if withImports {
 						r2 = decorator.NewRestorerWithImports("example.com/self", guess.New())
